@@ -383,6 +383,10 @@ def guards():
             g(f"diagonal offset={off_} axes=({a1_},{a2_}) kw", (lambda o_, p_, q_: lambda ns, x: ns.diagonal(x, offset=o_, axis1=p_, axis2=q_))(off_, a1_, a2_), (2, 3, 3))
     g("diagonal axes=(-2,-1) offset 0", lambda ns, x: ns.diagonal(x, 0, -2, -1), (3, 4))
     g("trace offset axes", lambda ns, x: ns.trace(x, 1, 1, 0), (3, 3))
+    # non-differentiable functions whose value DOES vary for complex input (sign(z) = z / |z|)
+    g("sign of a complex value", lambda ns, x: ns.real(ns.sign(x + 1j * (0.5 * x + 0.2)) * (1.0 - 2.0j)), (3,))
+    g("sign of a complex value fwd", lambda ns, x: ns.real(ns.sign(x + 1j * (0.5 * x + 0.2)) * (1.0 - 2.0j)), (3,), "fwd")
+    g("floor of a complex-derived real part", lambda ns, x: ns.floor(ns.real(x + 1j * x) * 3.0) + x, (3,))
     g("trace axes 3d", lambda ns, x: ns.trace(x, 0, 1, 2), (2, 3, 3))
     g("norm matrix ord=1", lambda ns, x: ns.linalg.norm(x, 1), (3, 3))
     g("norm matrix ord=2", lambda ns, x: ns.linalg.norm(x, 2), (3, 3))
@@ -473,6 +477,7 @@ def guard_body(c):
     vseed = c.seed()
     x0 = values.generic(vseed, [shape], 0.35, 1.75)[0][0]
     sample = {"guard": name, "mode": mode, "vseed": vseed}
+    c.features.update(guard=name, mode=mode)
     v = values.direction(vseed, shape, 9)
 
     def F(x, ns):
